@@ -1,2 +1,1 @@
 import MahfModel.Model.Sexp
-import MahfModel.Model.PopStack
